@@ -13,7 +13,8 @@ EXPLANATION = (
     'The real hailtop.batch front end (Batch/BashJob/Job.depends_on/_interpolate_command/Batch._async_run/'
     'LocalBackend._async_run) is executed natively on a pipeline of N jobs built by a symbolic builder: solver '
     'integers choose, for every ordered pair of jobs, none/explicit/resource-induced(/both) dependency in either '
-    'direction (jobs are created in index order, so this covers every creation order), self-dependencies, how a '
+    'direction (jobs are created in index order, so this covers every creation order, including sinks created before '
+    'their dependencies), self-dependencies, the iteration order of every dependency set (a solver-chosen permutation), how a '
     'consumer mentions its producer (file, resource group, group member) and whether always_run() precedes the '
     'commands; always_run flags and the exit status of every command are z3 booleans carried by proxy objects, so '
     'the run forks only where the real code branches on them (vt/shapesym.py: z3 decides which sides of each '
@@ -21,8 +22,10 @@ EXPLANATION = (
     'a recording fake. For every explored path one z3 query decides "path condition and not C17" where the oracle '
     '(Kahn order, least fixed point of the skip rule, written independently) is a formula over the still-symbolic '
     'booleans; one more query per shard proves that the explored path conditions cover the whole bounded input '
-    'space. Bounded: quick N=3 jobs (all 3^6 x 2^3 dependency shapes, every mention flavour per consumer) and N=4 '
-    'over all acyclic relations with explicit dependencies; thorough '
+    'space. Bounded: quick N=3 jobs (all 3^6 x 2^3 dependency shapes; every mention flavour per consumer and every '
+    'iteration order of every dependency set when acyclic, one flavour and canonical/reversed order when cyclic) and '
+    'N=4 over all acyclic relations with at most 4 explicit dependencies (canonical/reversed iteration order); thorough (N=4: all acyclic relations; all '
+    'permutations for acyclic pipelines, per-consumer flavours also when cyclic) '
     'additionally N=4 over all CYCLIC relations with at most 4 edges + self-dependencies (explicit or resource edges, '
     'file mentions), N=4 over ALL acyclic dependency relations on 4 jobs, once with explicit and once with '
     'resource-induced edges (acyclicity stated to the solver through existential order variables), N=3 acyclic with '
@@ -53,9 +56,10 @@ def _configs(tier):
     """Budgets: the pool gets a global deadline (quick 170 s, thorough 1300 s); shards that do not finish are not
     discharged."""
     n3 = dict(tag='N3', N=3, kinds=[0, 1, 2], aro=[0], nfix=3)
+    n3q = dict(n3, cyclic_global_flavour=True)
     n4e = dict(tag='N4dagE', N=4, kinds=[0, 1], aro=[0], acyclic_only=True, nfix=3)
     if tier == 'quick':
-        return [n3, n4e], 170
+        return [n3q, dict(n4e, order_mode='global2', max_edges=4)], 170
     return [
         n3,
         dict(tag='N4cyc', N=4, kinds=[0, 1, 2], aro=[0], max_total=4, cyclic_only=True, fixed_flavour=0, nfix=2),
@@ -101,8 +105,9 @@ def _encode(R):
 def run(R):
     cfgs, budget = _configs(R.tier)
     R.bounds = {c['tag']: {k: v for k, v in c.items() if k not in ('tag', 'nfix')} for c in cfgs}
-    R.bounds['symbolic'] = ('e_i_j (dependency kind per ordered pair), s_j (self-dependency), fl_j (file / group / '
-                            'group member), aro, Bool ar_j (always_run), Bool fail_j (exit status)')
+    R.bounds['symbolic'] = ('e_i_j (dependency kind per ordered pair, either direction: a job may be created before its '
+                            'dependencies), s_j (self-dependency), fl_j (file / group / group member), aro, ord_j_n / ordg '
+                            '(iteration order of each dependency set), Bool ar_j (always_run), Bool fail_j (exit status)')
     R.assume('subprocess in hailtop.batch.backend is replaced by a recording fake: check_call raises '
              'CalledProcessError iff the symbolic bit fail_j of the job whose script it receives; no script is executed',
              'bash jobs only (PythonJob needs dill and an image); one LocalBackend per worker process, scratch '
@@ -111,6 +116,11 @@ def run(R):
              'consumers mention them: the DSL rejects mentions of undefined resources',
              'job creation order is the index order; dependencies may point to later-created jobs, which is the '
              'same as creating the jobs of a fixed graph in any order',
+             'set iteration order is treated as nondeterministic (any order): Job._dependencies of every job is replaced by '
+             'a set subclass whose iteration order is a solver-chosen permutation of the job-index order (every permutation '
+             'for acyclic pipelines, canonical and reversed for cyclic ones) and is pinned in replay files; other sets of '
+             'the code under test keep their accidental order, so a counterexample that does not replay is retried under '
+             'every order of the dependency sets before it is declared a harness error',
              'vt/shapesym.py explores natively: exhaustiveness over the bounded space is re-proved by a solver query '
              'over the recorded path conditions, not assumed')
     R.extra['trusted_base'] = ['z3', 'vt/shapesym.py + vt/glue.py proxies', 'harness/C17_pipeline.py oracle and fake subprocess']
@@ -164,12 +174,12 @@ def run(R):
                 if H is None:
                     from harness import C17_pipeline as H
                 v = by_part[part][0]
-                bad, parts_now, obs = H.replay_concrete(N, v['inputs'])
+                bad, parts_now, obs, used = H.replay_any_order(N, v['inputs'], part)
                 if not bad or part not in parts_now:
                     raise HarnessError(f'C17 counterexample does not reproduce concretely: {v} -> {parts_now}')
-                what = (f'{text} FAILS for N={N} inputs={_compact(v["inputs"])}: ids={obs["ids"]} '
+                what = (f'{text} FAILS for N={N} inputs={_compact(used)}: ids={obs["ids"]} '
                         f'executed={[i for i, _ in obs["log"]]} exc={obs["exc"][0] if obs["exc"] else None}')
-                st = R.finding(cls, what, {'N': N, 'inputs': v['inputs'], 'part': part})
+                st = R.finding(cls, what, {'N': N, 'inputs': used, 'part': part})
                 detail['counterexamples'] = len(by_part[part])
                 R.ob(name, st, secs / max(len(PARTS), 1), detail, nontrivial=True)
             elif complete and unknown == 0 and n > 0:
@@ -208,7 +218,7 @@ def _compact(d):
 def replay(path):
     from harness import C17_pipeline as H
     d = json.load(open(path))['replay']
-    bad, parts, obs = H.replay_concrete(d['N'], d['inputs'])
+    bad, parts, obs, _ = H.replay_any_order(d['N'], d['inputs'], d.get('part'))
     print('violated parts:', parts, 'ids', obs['ids'], 'executed', [i for i, _ in obs['log']], 'exc', obs['exc'])
     H.teardown()
     return 1 if bad else 0
